@@ -118,7 +118,16 @@ public:
                 p = page_allocator_traits::allocate(page_allocator, 1);
             }).on_exception( [&] {
                 ++base.n_invalid_entries;
-                invalidate_page( k );
+                // Invalidate the lane only when the turn of this ticket has come: the pushes holding the
+                // earlier tickets of the lane must have published their items (and the tail counter) first.
+                for (atomic_backoff b{};; b.pause()) {
+                    ticket_type c = tail_counter.load(std::memory_order_acquire);
+                    if (c == k) {
+                        invalidate_page( k );
+                        break;
+                    }
+                    if (c & 1) break; // the lane has been invalidated already
+                }
             });
             page_allocator_traits::construct(page_allocator, p);
         }
